@@ -8,6 +8,9 @@ import PlasVerif.Driver.C15
 import PlasVerif.Driver.C07
 import PlasVerif.Driver.C16
 import PlasVerif.Driver.C20
+import PlasVerif.Driver.C03
+import PlasVerif.Driver.C10
+import PlasVerif.Driver.C11
 /-!
 Line-protocol driver: one request per line `<property> <stream> <payload…>`, one
 answer per line `<model output>\t<spec output or ->[\t<aux>]`.  Imports only `Model`,
@@ -28,6 +31,9 @@ def dispatch (line : String) : String :=
   | "C07" :: r => C07.handle r
   | "C16" :: r => C16.handle r
   | "C20" :: r => C20.handle r
+  | "C03" :: r => C03.handle r
+  | "C10" :: r => C10.handle r
+  | "C11" :: r => C11.handle r
   | _ => "bad-op"
 
 partial def loop (h : IO.FS.Stream) (out : IO.FS.Stream) : IO Unit := do
